@@ -5,7 +5,7 @@ import ast
 
 from rules import _cas
 from sa.cfg import CFG, handler_names
-from sa.expr import cmp_atom, edges_where, resolve, single_defs
+from sa.expr import cmp_atom, edges_implying, edges_where, resolve, single_defs
 from sa.loader import Program, dotted, norm, own_nodes
 from sa.util import call_sites, kwarg, self_attr, where
 
@@ -147,7 +147,7 @@ def run(ctx):
     hb_base = p.cls(HB + ".BaseHeartbeat")
     st_base = p.cls("optuna.storages._base.BaseStorage")
     impls = [c for c in p.subclasses(hb_base) if st_base in p.mro(c) and c.module.name.startswith("optuna.storages")]
-    ctx.floor("R19.3", "heartbeat_storages", len(impls), 2)
+    ctx.floor("R19.3", "heartbeat_storages", len(impls), 2, exact=True)
     _cas.cas_rule(ctx, "R19.3", label="fail-cas")
     for c in impls:
         f2 = c.methods.get("set_trial_state_values")
@@ -264,34 +264,33 @@ def run(ctx):
               message="the failed trial's number is not appended to retry_history before the max_retry test (off-by-one: one retry too many)",
               how="append dominates the test")
 
-    def atom_exceeded(e):
-        a = cmp_atom(e)
-        if a and a[0] == "self._max_retry" and "len(" in a[2] and "retry_history" in a[2]:
-            if a[1] is ast.Lt:
-                return True
-            if a[1] is ast.GtE:
-                return False
-        if a and a[2] == "self._max_retry" and "len(" in a[0] and "retry_history" in a[0]:
-            if a[1] is ast.Gt:
-                return True
-            if a[1] is ast.LtE:
-                return False
+    fdefs = single_defs(f.node)
+
+    def classify(e):
+        a = cmp_atom(resolve(e, fdefs)) if isinstance(e, ast.Compare) else None
+        if a is None:
+            return None
+        l, op, r = a
+        if l == "self._max_retry" and r == "None" and op in (ast.Is, ast.IsNot, ast.Eq, ast.NotEq):
+            return ("none", op in (ast.Is, ast.Eq))
+        hist_l = "len(" in l and "retry_history" in l
+        hist_r = "len(" in r and "retry_history" in r
+        if l == "self._max_retry" and hist_r:
+            if op in (ast.Lt, ast.GtE):
+                return ("exceeded", op is ast.Lt)
+        if r == "self._max_retry" and hist_l:
+            if op in (ast.Gt, ast.LtE):
+                return ("exceeded", op is ast.Gt)
         return None
+    # an edge is accepted when taking it implies "no limit configured, or the limit is not exceeded"
     acc = []
-    for t in g.stmt_nodes():
-        if t.kind == "test":
-            pol = edges_where(t.expr, atom_exceeded)
-            for k, m in t.succ:
-                if pol.get(k) is False:
-                    acc.append((t, k, m))
     none_edges = []
     for t in g.stmt_nodes():
         if t.kind == "test":
-            a = cmp_atom(t.expr)
-            if a and a[0] == "self._max_retry" and a[2] == "None":
-                for k, m in t.succ:
-                    if (a[1] is ast.IsNot and k == "f") or (a[1] is ast.Is and k == "t"):
-                        none_edges.append((t, k, m))
+            for k in edges_implying(t.expr, classify, ["none", "exceeded"], lambda asg: asg["none"] or not asg["exceeded"]):
+                for kk, m in t.succ:
+                    if kk == k:
+                        acc.append((t, k, m))
     ok = bool(acc) and all(g.dominated_by(n, [], acc + none_edges) for n in add)
     ctx.check(ok, "R19.5", f.short, "retry-bounded-by-max_retry",
               message="add_trial is reachable although len(retry_history) exceeds max_retry (or the comparison is not `max_retry < len(history)`)",
